@@ -354,3 +354,20 @@ impl Job {
 		self.control(Control::UnsetErrorHandler)
 	}
 }
+
+/// Verification seam: send a single control at a chosen priority (0 = normal, 1 = high,
+/// anything else = urgent), which the public API only does for fixed controls.
+#[cfg(watchexec_verif)]
+impl Job {
+	#[allow(missing_docs)]
+	pub fn verif_control(&self, control: Control, priority: u8) -> Ticket {
+		self.send_controls(
+			[control],
+			match priority {
+				0 => Priority::Normal,
+				1 => Priority::High,
+				_ => Priority::Urgent,
+			},
+		)
+	}
+}
